@@ -143,6 +143,35 @@ TxWideB  == <<119073, 109, 27, 91, 109, 120>>                \* U+1D121 (4 bytes
 TextsB3  == {TxEmpty, TxA, TxABC, TxColour, TxMulti}
 TextsB3x == TextsB3 \cup {TxMidCol, TxWideB}
 
+(* Colour sequences have no maximal length: ESC [ (digit | ;)* m  stacks any number  *)
+(* of attributes (24-bit colour ESC[38;2;r;g;bm: 19 runes, foreground + background   *)
+(* + attributes: 40 and more).  SgrOfLen(n) is a complete colour sequence of exactly  *)
+(* n runes (n >= 3): parameters ddd;ddd;...                                           *)
+SgrParam(k) == IF k % 4 = 0 THEN 59 ELSE 48 + ((3 * k) % 10)
+SgrOfLen(n) == <<ESC, 91>> \o [k \in 1..(n - 3) |-> SgrParam(k)] \o <<109>>
+\* the text with every colour sequence replaced by one of n runes (malformed tail kept as it is)
+RECURSIVE RecolourFrom(_, _, _)
+RecolourFrom(s, i, n) ==
+  IF i > Len(s) THEN <<>>
+  ELSE IF s[i] = ESC
+       THEN LET e == SgrEnd(s, i) IN
+            IF e = 0 THEN SubSeq(s, i, Len(s)) ELSE SgrOfLen(n) \o RecolourFrom(s, e + 1, n)
+       ELSE <<s[i]>> \o RecolourFrom(s, i + 1, n)
+Recolour(s, n) == RecolourFrom(s, 1, n)
+HasColour(s) == \E i \in 1..Len(s) : s[i] = ESC
+\* oracle-level law (TermTrimSgr_MC): how long the colour sequences are is invisible
+LengthBlind(s, n, cols) ==
+  WellFormed(s) => /\ WellFormed(Recolour(s, n))
+                   /\ Visible(Recolour(s, n)) = Visible(s)
+                   /\ Shown(Recolour(s, n), cols, TRUE) = Shown(s, cols, TRUE)
+
+\* texts with long colour sequences
+TxTrue  == <<27, 91, 51, 56, 59, 50, 59, 50, 53, 53, 59, 49, 50, 56, 59, 54, 52, 109,   \* ESC[38;2;255;128;64m (18)
+             97, 98, 27, 91, 48, 109>>                                                   \* ab ESC[0m
+TxStack == <<97, 27, 91, 49, 59, 52, 59, 51, 56, 59, 53, 59, 49, 57, 54, 109, 98, 99, 100>>  \* a ESC[1;4;38;5;196m (15) bcd
+TxDeep  == <<120>> \o SgrOfLen(43) \o <<121, 122>> \o SgrOfLen(3)                       \* x <43 runes> yz ESC[m
+TextsSgr == {TxEmpty, TxABC, TxTrue, TxStack, TxDeep}
+
 \* every concatenation of at most n tokens
 RECURSIVE Concats(_, _)
 Concats(tokens, n) ==
